@@ -70,7 +70,23 @@ const (
 	shapeFifo    = "fifo"
 	shapeCharDev = "chardev"
 	shapeSocket  = "socket"
+	// one file entry whose HEADER name is harmless (not valid UTF-8 in the first, plain ASCII in the second) and which
+	// carries an Info-ZIP Unicode Path extra field, with a correct CRC of the header name, that spells the enumerated name:
+	// a reader that prefers the recorded UTF-8 spelling must validate THAT. The reference of clause 3 is the header name.
+	shapeUnicodePath      = "unicode-path-extra:header=non-utf8"
+	shapeUnicodePathASCII = "unicode-path-extra:header=ascii"
 )
+
+// headerNameOf is the name the entry that carries the enumerated name has in the zip headers.
+func headerNameOf(shape string, name []byte) []byte {
+	switch shape {
+	case shapeUnicodePath:
+		return []byte("caf\xe9.txt")
+	case shapeUnicodePathASCII:
+		return []byte("cafe.txt")
+	}
+	return name
+}
 
 // Destination forms (what is passed to Unzip). The destination directory is called "a" (a token of the alphabet, so
 // that names such as "../aa" reach a sibling sharing its name prefix). "abs" is <base>/a; the relative ones are
@@ -262,7 +278,7 @@ func space(thorough bool) ([]*block, bound) {
 		&block{id: "extras", names: extras, shapes: []string{shapeFile, shapeDeflate, shapeAfterDir}, targets: product(all, "os", "mem"), destExists: true, limits: []string{limNone, limRecursive}},
 		&block{id: "extras-nested", names: extras, shapes: []string{shapeFile}, outers: [][]string{{".zip"}, {".zip", ".jar"}}, targets: product(absRel, "os", "mem"), destExists: true, limits: rec},
 		&block{id: "deep", names: deepNames, shapes: mainShapes, targets: longTargets, destExists: true, limits: none},
-		&block{id: "shapes", names: variantNames, shapes: []string{shapeDeflate, shapeSymlink, shapeAfterSymlink, shapeLinkChain, shapeAfterSelf, shapeAfterSelf2, shapeFifo, shapeCharDev, shapeSocket}, targets: product(absRel, "os", "mem"), destExists: true, limits: none},
+		&block{id: "shapes", names: variantNames, shapes: []string{shapeDeflate, shapeSymlink, shapeAfterSymlink, shapeLinkChain, shapeAfterSelf, shapeAfterSelf2, shapeFifo, shapeCharDev, shapeSocket, shapeUnicodePath, shapeUnicodePathASCII}, targets: product(absRel, "os", "mem"), destExists: true, limits: none},
 		&block{id: "limits", names: variantNames, shapes: fileDir, targets: product(absRel, "os", "mem"), destExists: true, limits: []string{limFlat, limRecursive}},
 		&block{id: "dest-missing", names: variantNames, shapes: fileDir, targets: product([]string{destAbs, destAbsSlash, destRel, destUpRel}, "os", "mem"), destExists: false, limits: none},
 		&block{id: "nested1", names: variantNames, shapes: fileDir, outers: outers1, targets: product(absRel, "os", "mem"), destExists: true, limits: rec},
